@@ -454,6 +454,86 @@ func staleNextAdopted(tr *Trace) (bool, string) {
 	return false, ""
 }
 
+// staleRegisterAdopted: the same finding for /extension/register. A registration that an extension process sent just
+// before it was killed (issue recorded, the call ended with the process) is handled after the reset: the platform then
+// reports that extension as registered in a generation in which no process of it has asked to be registered yet (and
+// launching the real one fails with a name collision).
+func staleRegisterAdopted(tr *Trace) (bool, string) {
+	type inflight struct {
+		role, proc string
+		issue      int64
+	}
+	var cands []inflight
+	open := map[string]*Event{} // actor -> pending register issue
+	for i := range tr.Events {
+		e := &tr.Events[i]
+		if e.Call != "ext.register" || !strings.HasPrefix(e.Actor, "ext:") {
+			continue
+		}
+		if e.Kind == "issue" {
+			open[e.Actor] = e
+		}
+		if e.Kind == "return" {
+			if is := open[e.Actor]; is != nil && e.Err != "" {
+				cands = append(cands, inflight{role: strings.SplitN(e.Actor, "#", 2)[0], proc: e.Proc, issue: is.Seq})
+			}
+			delete(open, e.Actor)
+		}
+	}
+	for _, c := range cands {
+		name := strings.TrimPrefix(c.role, "ext:")
+		var death int64
+		for i := range tr.Events {
+			if e := &tr.Events[i]; e.Kind == "sup.died" && e.Proc == c.proc {
+				death = e.Seq
+			}
+		}
+		if death == 0 {
+			continue
+		}
+		// the first launch of that role after the death, and the first register any process of it issues after the death
+		var nextLaunch, nextReg int64
+		for i := range tr.Events {
+			e := &tr.Events[i]
+			if e.Seq <= death {
+				continue
+			}
+			if e.Kind == "sup.exec" && nextLaunch == 0 {
+				if r, _ := e.Extra["role"].(string); r == c.role {
+					nextLaunch = e.Seq
+				}
+			}
+			if e.Kind == "issue" && e.Call == "ext.register" && strings.HasPrefix(e.Actor, c.role+"#") && nextReg == 0 {
+				nextReg = e.Seq
+			}
+		}
+		for i := range tr.Events {
+			e := &tr.Events[i]
+			if e.Seq <= death || e.Kind != "platform" || e.Call != "ExtensionInit" || xs(e, "name") != name {
+				continue
+			}
+			if nextReg != 0 && e.Seq > nextReg {
+				break
+			}
+			if st := xs(e, "state"); st == "Registered" || st == "Ready" || st == "Running" {
+				// only lines of a generation that began after the death count: an InitStart lies in between
+				for k := range tr.Events {
+					x := &tr.Events[k]
+					if x.Kind == "platform" && x.Call == "InitStart" && x.Seq > death && x.Seq < e.Seq {
+						// and the report of the generation that died does not count: it needs a reset in between
+						for m := range tr.Events {
+							if y := &tr.Events[m]; y.Kind == "hook.hit" && y.Call == "reset.serverCleared" && y.Seq > death && y.Seq < x.Seq {
+								return true, fmt.Sprintf("extension %s is reported %s at seq %d although no process of it has asked to register since %s died at seq %d with a registration in flight (sent at seq %d)", name, st, e.Seq, c.proc, death, c.issue)
+							}
+						}
+					}
+				}
+			}
+		}
+	}
+	return false, ""
+}
+
 // attributeStale re-keys the violations of a run whose history shows a stale dispatch, so that they match the known
 // finding and nothing else does. A dead host is never re-keyed.
 func attributeStale(out *kit.Outcome, tr *Trace, prop string) {
@@ -470,13 +550,17 @@ func attributeStale(out *kit.Outcome, tr *Trace, prop string) {
 		}
 		return
 	}
-	if ok, why := staleNextAdopted(tr); ok {
+	ok, why := staleNextAdopted(tr)
+	if !ok {
+		ok, why = staleRegisterAdopted(tr)
+	}
+	if ok {
 		for i := range out.Violations {
 			if strings.Contains(out.Violations[i].Key, "host-died") || strings.Contains(out.Violations[i].Key, "hang") {
 				continue
 			}
 			out.Violations[i].Msg = "[" + out.Violations[i].Key + "] " + out.Violations[i].Msg + " [history: " + why + "]"
-			out.Violations[i].Key = prop + "/stale-next-adopted"
+			out.Violations[i].Key = prop + "/stale-request-adopted"
 		}
 	}
 }
